@@ -1622,3 +1622,7 @@ mod tests {
         );
     }
 }
+
+#[cfg(all(test, pendulum_project_ntpd_rs_verif))]
+#[path = "/verif/harness/statime-algo/hook_filter.rs"]
+mod verif_hook;
